@@ -11,7 +11,7 @@ variable {σ τ ε : Type}
 start of the current match. -/
 theorem C07_invalid_only_if_no_match (cfg : Config σ τ ε) (hm : MachineOK cfg) (s : Nat) (st : LState σ)
     (hlast : st.last = none) (loc : Loc) (st' : LState σ)
-    (h : scan cfg (dispatch (stateArms cfg.dfa)) s st.iter st = .err loc st') :
+    (h : scan cfg (dispatch (stateArms cfg.dfa cfg.inl)) s st.iter st = .err loc st') :
     (∀ k a e, ¬ Cand cfg s st.iter k a e) ∧ loc = st.curStart := by
   have hns := dispatchOK_of_machineOK cfg hm
   rw [scan_eq_scanPlain cfg _ hm.flags hm.acceptAny hm.targets hns s st.iter st (by simp [hlast])] at h
@@ -22,7 +22,7 @@ theorem C07_invalid_only_if_no_match (cfg : Config σ τ ε) (hm : MachineOK cfg
 action (it cannot return `.err`). -/
 theorem C07_match_is_not_error (cfg : Config σ τ ε) (hm : MachineOK cfg) (s : Nat) (st : LState σ)
     (hlast : st.last = none) (k a : Nat) (e : Bool) (hc : Cand cfg s st.iter k a e) (loc : Loc) (st' : LState σ) :
-    scan cfg (dispatch (stateArms cfg.dfa)) s st.iter st ≠ .err loc st' := by
+    scan cfg (dispatch (stateArms cfg.dfa cfg.inl)) s st.iter st ≠ .err loc st' := by
   intro h
   exact (C07_invalid_only_if_no_match cfg hm s st hlast loc st' h).1 k a e hc
 
